@@ -433,7 +433,7 @@ const V: [i32; 13] = [0, 1, 2, 63, 64, 65, 240, 255, 256, 257, 320, 480, 1024];
 fn gen_cases(th: bool, seed: u64) -> Vec<Value> {
     let mut rng = Rng::new(seed ^ 0xC08);
     let mut v = vec![];
-    let n = if th { 120_000 } else { 9_000 };
+    let n = if th { 150_000 } else { 24_000 };
     // boundary-biased value, small values more likely so that most cases are cheap
     let sz = |rng: &mut Rng| -> u32 {
         match rng.u32r(0, 9) {
